@@ -33,6 +33,7 @@ COND_MUT = {
     'opensmt::MainSolver::tryAddNamedAssertion': 'named assertion added',
     'opensmt::SMTConfig::setOption': 'option changed',
 }
+_LEAF_MUT0, _COND_MUT0 = dict(LEAF_MUT), dict(COND_MUT)
 # member containers of Interpret whose growth is persistent state
 FIELD_MUT = {('this.assertions', 'push'): 'assertion appended to Interpret::assertions',
              ('this.user_declarations', 'push'): 'declaration appended to Interpret::user_declarations'}
@@ -358,6 +359,9 @@ def run(src, tier, seed):
     rec = [f for f in fx.F.values() if f.get('class') == 'opensmt::DefinedFunctions' and f.get('body') and any(is_call(n, 'push', 'this.scopedNames') for n in fwalk(f))]
     if len(rec) != 1:
         raise AnalysisBroken('DefinedFunctions: expected one method that appends to the scope log, found %s' % [f['name'] for f in rec])
+    # the tables are module-level and this function runs several times in one process (self-test): start from the pristine tables every time
+    LEAF_MUT.clear(); LEAF_MUT.update(_LEAF_MUT0)
+    COND_MUT.clear(); COND_MUT.update(_COND_MUT0)
     for tab in (LEAF_MUT, COND_MUT):
         tab.pop('opensmt::DefinedFunctions::insert', None)
         tab.pop(rec[0]['name'], None)
